@@ -54,7 +54,7 @@ REQUIRE = {"queries": 3000, "expected_invalid": 200, "selective": 400, "find_han
 
 # Violation keys: False = one key per minimal explaining subset, "quirk|a+b" (as specified in DESIGN 1.7);
 # True = one key per quirk of that subset, "quirk|a" and "quirk|b" (keeps the number of distinct keys linear).
-SPLIT_QUIRK_KEYS = os.environ.get("C29_SPLIT_QUIRK_KEYS", "0") == "1"
+SPLIT_QUIRK_KEYS = os.environ.get("C29_SPLIT_QUIRK_KEYS", "1") == "1"
 
 MODEL_UID = {("P", "FIND"): "1.2.840.10008.5.1.4.1.2.1.1", ("P", "MOVE"): "1.2.840.10008.5.1.4.1.2.1.2",
              ("P", "GET"): "1.2.840.10008.5.1.4.1.2.1.3", ("S", "FIND"): "1.2.840.10008.5.1.4.1.2.2.1",
@@ -78,7 +78,7 @@ def gen_cases(tier, seed):
     if tier == "quick":
         nblocks, ndb, nq = 64, 4, 60
     else:
-        nblocks, ndb, nq = 640, 8, 100
+        nblocks, ndb, nq = 960, 8, 100
     return [{"seed": seed, "block": b, "ndb": ndb, "nq": nq} for b in range(nblocks)]
 
 
@@ -367,6 +367,8 @@ def gen_query(rng, instances):
             q["root"] = "S"
             q["level"] = "PATIENT"
             q["keys"] = [k for k in keys if k[0] in ("PatientID", "PatientName")] or [["PatientID", ""]]
+            if rng.random() < 0.5:
+                q["keys"] = [["PatientID", str(target["PatientID"])]]
         elif how == "drop-upper":
             ups = [refqr.UNIQUE[u] for u in refqr.LEVELS[q["root"]][:idx]]
             if ups:
@@ -384,6 +386,12 @@ def gen_query(rng, instances):
         elif how == "optional-only":
             q["keys"] = [[rng.choice(OPTIONAL_UNSUPPORTED), ""]]
             q["level"] = refqr.LEVELS[q["root"]][0]
+    if q["level"] not in refqr.LEVELS[q["root"]] and rng.random() < 0.5:
+        # unknown level, but the unique keys of every level are there (nothing else could make it invalid)
+        have = [k[0] for k in q["keys"]]
+        for lv in refqr.LEVELS[q["root"]]:
+            if refqr.UNIQUE[lv] not in have:
+                q["keys"].append([refqr.UNIQUE[lv], str(target[refqr.UNIQUE[lv]])])
     return q
 
 
@@ -414,7 +422,11 @@ PINNED = [
          {"op": "FIND", "root": "P", "level": "PATIENT", "keys": [["PatientID", "a"], ["PatientName", "*"]], "ts": "implicit"},
          {"op": "FIND", "root": "S", "level": "STUDY", "keys": [["StudyInstanceUID", ["1.2.1", "1.2.2"]]], "ts": "implicit"},
          {"op": "MOVE", "root": "S", "level": "STUDY", "keys": [["StudyInstanceUID", ["1.2.1", "1.2.2"]]], "ts": "implicit"},
-         {"op": "FIND", "root": "P", "level": "PATIENT", "keys": [], "ts": "implicit"}]},
+         {"op": "FIND", "root": "P", "level": "PATIENT", "keys": [], "ts": "implicit"},
+         {"op": "FIND", "root": "P", "level": "PATIENT", "keys": [["PatientBirthDate", ""]], "ts": "implicit"}]},
+    # open-ended range against a study whose date is present but empty
+    {"db": [_i("a", "1.2.1", "1.3.1", "1.4.1", StudyDate="")],
+     "queries": [{"op": "FIND", "root": "S", "level": "STUDY", "keys": [["StudyDate", "-20200101"]], "ts": "implicit"}]},
 ]
 
 
